@@ -62,4 +62,8 @@ def _run_small(chk):
 
 
 def replay(chk, path):
+    import json, widetable
+    rep = json.load(open(path))["replay"]
+    if "wide_hist" in rep:
+        return widetable.replay(chk, rep, "model")
     return relrun.replay_file(chk, path, relevant, signature)
